@@ -61,13 +61,16 @@ Descendants(a, s, k, o) == HasNode(reg[a], s) /\
 \* the public builders, used the well-formedness preserving way
 AddNode(a, n) == ~HasNode(reg[a], n.id) /\
                  Set(a, [reg[a] EXCEPT !.nodes = Append(@, n)], norm[a], [op |-> "AddNode", a |-> a, n |-> n])
-AddRootNode(a, n) == ~HasNode(reg[a], n.id) /\
-                 Set(a, [reg[a] EXCEPT !.nodes = Append(@, n), !.roots = Append(@, n.id)], norm[a],
+\* adding a root node: refused silently (nothing changes) when the node has no identifier or the identifier is a root already
+AddRootNode(a, n) == (~HasNode(reg[a], n.id) \/ n.id \in Roots(reg[a])) /\
+                 Set(a, IF n.id = "" \/ n.id \in Roots(reg[a]) THEN reg[a]
+                        ELSE [reg[a] EXCEPT !.nodes = Append(@, n), !.roots = Append(@, n.id)], norm[a],
                      [op |-> "AddRootNode", a |-> a, n |-> n])
 AddEdge(a, f, t, to) == /\ {f} \cup Rng(to) \subseteq Ids(reg[a])
                         /\ Set(a, [reg[a] EXCEPT !.edges = Append(@, [type |-> t, from |-> f, to |-> to])], FALSE,
                                [op |-> "AddEdge", a |-> a, e |-> [type |-> t, from |-> f, to |-> to]])
 Build == \/ \E a \in Regs, id \in IdsU, v \in AttrVals : AddNode(a, NodeVal(id, v)) \/ AddRootNode(a, NodeVal(id, v))
+         \/ \E a \in Regs, v \in AttrVals : AddRootNode(a, NodeVal("", v))
          \/ \E a \in Regs, f \in IdsU, t \in TypesU, x \in IdsU : AddEdge(a, f, t, <<x>>)
          \/ \E a \in Regs, f \in IdsU, t \in TypesU, x \in IdsU, y \in IdsU : AddEdge(a, f, t, <<x, y>>)
 
